@@ -1,14 +1,19 @@
 SPEC = dict(
-    claimed=False,
+    claimed=True,
     title='A never-stop fan is never driven below its minimum, and the minimum never drops',
     props_file='Props/C02.v', props_mod='Props.C02',
     proof_files=['Proofs/Rescale.v', 'Proofs/Ctrl.v', 'Drv/CtrlC02.v'],
     tie_vo=['Proofs/LeafTie.vo'],
     drivers=[dict(name='ctrl', drv_mod='Drv.CtrlC02', drv_file='Drv/CtrlC02.v', shard=100,
                   args={'quick': ['n=600'], 'thorough': ['n=12000']}, timeout={'quick': 900, 'thorough': 6000})],
-    rule='seeded histories of 1..40 control cycles (interleaved RPM polls, external interference, device faults) on real '
-         'HwMonFan/FileFan/CmdFan objects; generators random/stall/const/ext/fault; non-trivial = at least two control cycles; '
-         'distinct = distinct case terms',
-    assumptions=[], finding_codes={}, finding_text={},
-    level_text='TODO', level_note='TODO',
+    rule='seeded histories of 1..40 control cycles with interleaved RPM polls, external interference and device faults on real '
+         'HwMonFan/FileFan/CmdFan objects driven through the real UpdateFanSpeed/measureRpm; generators random/stall/const/ext/fault; '
+         'PWM maps identity/quantiser/sparse/monotone-sparse/plateau; algorithms direct, rate-limited, PID (default and random gains); '
+         'curve values -500..800; dt 0, 1 ns, 50 ms..2 s, hours. Non-trivial = at least two control cycles; distinct = distinct case terms.',
+    assumptions=['PWM map non-empty with strictly increasing keys (pm_ok); 0 <= min <= max <= 255', 'outputs of the PWM map are never -1'],
+    trusted_base=['Print Assumptions: FloatAxioms.Leibniz.eqb_spec (stdlib axiom, used to lift the computed exactness of float64(max)-float64(min) on 0..255) and the kernel float/int63 primitives; no other axiom', 'hand-written model Model/Controller.v of calculateTargetPwm / ensureNoThirdPartyIsMessingWithUs / trySetManualPwm / setPwm / measureRpm, Model/Fan.v, Model/ControlLoop.v: agreement with the Go code is observed bit-exactly on the generated histories (driver ctrl), not proved', 'one control cycle is atomic in the model; interference during a cycle is represented by interference just before or just after it', 'the curve is a stub SpeedCurve in the driver (real curves: C06/C07); the PID clock is virtual (overlay rewrite of time.Now in util/pid.go)', 'gen/Consts.v regenerated from the source: clamp bounds, rescale divisor, stall threshold, post-raise average'],
+    finding_codes={}, finding_text={},
+    level_text='C02_floor / C02_raise_strict: after every event of every history the fan minimum is unchanged, the last request is at least minimum + number of stall raises so far, raises only grow by one and the request issued at a raise is the stalled request + 1; for all fan kinds, algorithms and RPM histories. The observer checks floor, monotone minimum and strict raise on the real controller; the model is compared bit-exactly.',
+    level_note='trusted: Coq kernel + FloatAxioms.Leibniz.eqb_spec; hand-written controller model tied to the code by the differential ctrl driver (bit-exact agreement observed, not proved); atomic cycles',
+    design_ref='DESIGN.md section 5 C02',
 )
